@@ -4,7 +4,7 @@ import TopSearch.Model.Pairs
 namespace TopSearch.Gen.Pairs
 open TopSearch.Pairs
 def kernels : Kernels where
-  closestSlice := fun neighbours => fun l => pySlice 1 (1 + neighbours) l
+  closestSlice := fun neighbours => fun l => pySlice 1 (neighbours + 1) l
   nearestSlice := fun l => l.drop 1
   cyclesSlice := fun cycles => fun l => pySlice 0 cycles l
   keepPair := fun p => p != (0, 0)
